@@ -205,7 +205,8 @@ def loop_tie(chk):
 
 def report(chk, tie, name, searched):
     """shared bookkeeping: coverage, obligations, and the violation when the tie is broken and nothing else was found"""
-    chk.coverage["source_translation"] = {k: v for k, v in tie.items() if k != "ir"}
+    key = "source_translation" if "source_translation" not in chk.coverage else f"source_translation_{name}"
+    chk.coverage[key] = {k: v for k, v in tie.items() if k != "ir"}
     n = len(tie.get("theorems") or {"circuit": CIRCUIT_THEOREMS, "classify": CLASSIFY_THEOREMS, "failure": FAILURE_THEOREMS, "sleep": SLEEP_THEOREMS, "loop": LOOP_THEOREMS}.get(name, THEOREMS))
     chk.coverage["obligations"] = chk.coverage.get("obligations", 0) + n
     if tie["ok"]:
@@ -215,3 +216,15 @@ def report(chk, tie, name, searched):
     elif not chk.violations:
         chk.violation({"kind": "source-translation", "what": tie["detail"], "stage": tie["stage"],
                        "theorem": tie.get("theorem", "fail-closed translator"), "ir": tie.get("ir"), "searched": searched}, no_input=True)
+
+
+def runner_ties(chk, searched="scripted call sequences (random, abort sentinels and sweeps): no property violation found"):
+    """every theorem about the retry loop is a theorem about Runner.run; three translations tie Runner.run to the source:
+    _handle_failure = Runner.handle_failure (PyIRF), the sleep protocol = Runner.backoff (PyIRS), the loop bodies iterated =
+    Runner.run given those two (PyIRL).  All three are regenerated and re-proved (concurrently) for each runner property."""
+    from concurrent.futures import ThreadPoolExecutor
+    with ThreadPoolExecutor(max_workers=3) as ex:
+        futs = [(name, ex.submit(fn, chk)) for name, fn in (("failure", failure_tie), ("sleep", sleep_tie), ("loop", loop_tie))]
+        ties = [(name, f.result()) for name, f in futs]
+    for name, tie in ties:
+        report(chk, tie, name, searched)
